@@ -426,12 +426,34 @@ pub fn suite_names(ctx: &Ctx, thorough: bool) {
     for f in ["é", "ａ", "İ", "\u{10000}", "n\u{301}"] {
         for k in 1..=40usize { cands.push(f.repeat(k)); cands.push(format!("npm{}", f.repeat(k))); cands.push(format!("{}pypi", f.repeat(k))); }
     }
+    // percent-encoded spellings of the names: every single character of every name escaped, in either hex case, and all of them
+    for n in refimpl::KNOWN_TYPES {
+        let cs: Vec<char> = n.chars().collect();
+        for i in 0..cs.len() {
+            for (upper, hexup) in [(false, true), (false, false), (true, true)] {
+                let c = if upper { cs[i].to_ascii_uppercase() } else { cs[i] };
+                let e = if hexup { format!("%{:02X}", c as u32) } else { format!("%{:02x}", c as u32) };
+                let v: String = cs.iter().enumerate().map(|(j, x)| if j == i { e.clone() } else { x.to_string() }).collect();
+                cands.push(v);
+            }
+        }
+        cands.push(cs.iter().map(|c| format!("%{:02X}", *c as u32)).collect());
+    }
     par_for(cands.len(), &|i| {
         let v = &cands[i];
         ctx.eval();
         if let Ok(t) = PackageType::from_str(v) {
             if v.to_ascii_lowercase() != t.name() {
                 ctx.violate("C15.converse", "a string that parses equals the type's name once ASCII-lower-cased", json!(v), format!("{t:?}"), "Err".into());
+            }
+        }
+        // the same through the type string of a PURL: whatever stands between `pkg:` and the first '/' is taken for a known type
+        // only if it is that type's name up to ASCII case
+        if !v.contains(['/', '?', '#']) && v.len() < 200 {
+            if let Ok(Ok(p)) = guarded(|| Purl::from_str(&format!("pkg:{v}/n"))) {
+                if v.to_ascii_lowercase() != p.package_type().name() {
+                    ctx.violate("C15.converse", "a string that parses equals the type's name once ASCII-lower-cased", json!(format!("pkg:{v}/n")), format!("{:?}", p.package_type()), "Err".into());
+                }
             }
         }
     });
@@ -656,6 +678,12 @@ pub fn suite_eq(ctx: &Ctx, thorough: bool) {
         corpus.push(b.replace("n#s", "n%23s"));
         corpus.push(b.replace("a/b/n", "a%2Fb/n"));
         corpus.push(b.replace("/a/n", "/n@a"));
+    }
+    // keys that differ, at one position, in a letter against each non-letter of the key alphabet (and in letter case): the
+    // hand-written comparisons of the key type and the derived ones must give ONE order
+    for k in ["a", "aa", "a_", "a-", "a.", "a0", "a9", "az", "A_", "AZ", "a_a", "aaa", "_a", "0a", "z", "Z", "_", "-"] {
+        corpus.push(format!("pkg:t/n?{k}=1"));
+        corpus.push(format!("pkg:t/n?{k}=1&zz=2"));
     }
     if thorough { for_all_token_strings("pkg:t/", 3, &|_| {}); }
     corpus.sort();
